@@ -45,6 +45,10 @@ AlphaBroken == {Add(<<"S1:ixb">>, <<>>), Add(<<"S1:ixb">>, <<"linux/arm64">>), A
 \* an unparsable --desc-platform: as found it is swallowed (finding X03-1)
 AlphaDescPlat == {[Add(<<"S1:a64">>, <<>>) EXCEPT !.dplat = "linux/amd64/bad!"],
                   [Create(<<"S1:a64">>, <<>>) EXCEPT !.dplat = "lin ux/amd64"]}
+\* an annotation without value next to another key: as found descriptor.Equal takes them for equal (X03-3)
+AlphaEqual == {[Create(<<"S1:armv7">>, <<>>) EXCEPT !.dann = <<KV("b", "")>>],
+               [Add(<<"S1:armv7">>, <<>>) EXCEPT !.dann = <<KV("a", "1")>>],
+               [Add(<<"S1:armv7">>, <<>>) EXCEPT !.dann = <<KV("b", "")>>], Del(<<"a64">>, <<>>)}
 AlphaSmall == {Create(<<"S1:ix1">>, <<"linux/amd64", "linux/arm/v7">>), Add(<<"S1:arm64">>, <<>>),
                [Add(<<"S1:a64">>, <<>>) EXCEPT !.dann = <<KV("a", "1")>>], Add(<<"S1:a64", "S1:nosuch">>, <<>>),
                Del(<<"a64">>, <<>>), Del(<<>>, <<"linux/amd64">>), Add(<<"S1:ixb">>, <<>>)}
